@@ -208,20 +208,31 @@ pub fn runner(seed: u64, cases: u32) -> TestRunner {
 
 // ---------------------------------------------------------------- watchdog
 
-/// (millis since process start when the current case began, worker, case index); 0 = idle
-static HEARTBEATS: Mutex<Vec<(u64, String, u64)>> = Mutex::new(Vec::new());
+/// per worker slot: millis since process start when the current case began (0 = idle) and its index;
+/// lock-free so that cheap cases do not contend on it
+static BEAT_T: [std::sync::atomic::AtomicU64; 64] = [const { std::sync::atomic::AtomicU64::new(0) }; 64];
+static BEAT_I: [std::sync::atomic::AtomicU64; 64] = [const { std::sync::atomic::AtomicU64::new(0) }; 64];
+static BEAT_SUB: Mutex<String> = Mutex::new(String::new());
 static PROCESS_START: std::sync::OnceLock<Instant> = std::sync::OnceLock::new();
 
 fn now_ms() -> u64 {
     PROCESS_START.get_or_init(Instant::now).elapsed().as_millis() as u64 + 1
 }
 
-fn beat(slot: usize, what: &str, index: u64, active: bool) {
-    let mut g = HEARTBEATS.lock().unwrap_or_else(std::sync::PoisonError::into_inner);
-    if g.len() <= slot {
-        g.resize(slot + 1, (0, String::new(), 0));
+fn beat(slot: usize, index: u64, active: bool) {
+    use std::sync::atomic::Ordering::Relaxed;
+    let slot = slot % 64;
+    // the clock is only read every 64th case: a watchdog resolution of seconds is plenty
+    if active {
+        if index % 64 == 1 || BEAT_T[slot].load(Relaxed) == 0 {
+            BEAT_T[slot].store(now_ms(), Relaxed);
+        }
+        BEAT_I[slot].store(index, Relaxed);
     }
-    g[slot] = (if active { now_ms() } else { 0 }, what.to_string(), index);
+}
+
+fn beat_idle(slot: usize) {
+    BEAT_T[slot % 64].store(0, std::sync::atomic::Ordering::Relaxed);
 }
 
 /// A case that runs longer than `VERIF_WATCHDOG_S` (default 300 s, against an
@@ -230,16 +241,30 @@ pub fn start_watchdog(property: &str) {
     let limit_s: u64 = std::env::var("VERIF_WATCHDOG_S").ok().and_then(|s| s.parse().ok()).unwrap_or(300);
     let property = property.to_string();
     now_ms();
-    std::thread::spawn(move || loop {
-        std::thread::sleep(std::time::Duration::from_millis(500));
-        let now = now_ms();
-        let g = HEARTBEATS.lock().unwrap_or_else(std::sync::PoisonError::into_inner);
-        for (slot, (t, what, index)) in g.iter().enumerate() {
-            if *t != 0 && now.saturating_sub(*t) > limit_s * 1000 {
-                println!(
-                    "INCONCLUSIVE property={property} watchdog: case {index} of worker {slot} in sub-check {what} has been running for more than {limit_s} s (hang or pathological slowness; not counted as a violation)"
-                );
-                std::process::exit(2);
+    std::thread::spawn(move || {
+        use std::sync::atomic::Ordering::Relaxed;
+        let mut last: [(u64, u64); 64] = [(0, 0); 64];
+        loop {
+            std::thread::sleep(std::time::Duration::from_millis(1000));
+            let now = now_ms();
+            for slot in 0..64 {
+                let (t, i) = (BEAT_T[slot].load(Relaxed), BEAT_I[slot].load(Relaxed));
+                if t == 0 {
+                    last[slot] = (0, 0);
+                    continue;
+                }
+                // the same case index has been current since `since`
+                if last[slot].1 != i || last[slot].0 == 0 {
+                    last[slot] = (now, i);
+                    continue;
+                }
+                if now.saturating_sub(last[slot].0) > limit_s * 1000 {
+                    let what = BEAT_SUB.lock().map(|s| s.clone()).unwrap_or_default();
+                    println!(
+                        "INCONCLUSIVE property={property} watchdog: case {i} of worker {slot} in sub-check {what} has been running for more than {limit_s} s (hang or pathological slowness; not counted as a violation)"
+                    );
+                    std::process::exit(2);
+                }
             }
         }
     });
@@ -692,6 +717,11 @@ where
     if cases == 0 {
         return (acct, None);
     }
+    if slot == 0 {
+        if let Ok(mut g) = BEAT_SUB.lock() {
+            *g = sub.to_string();
+        }
+    }
     let mut runner = runner(seed, cases);
     // We drive generation ourselves so that accounting and shrinking are
     // cleanly separated: generate a tree, evaluate its current value, and only
@@ -704,9 +734,8 @@ where
         let value = tree.current();
         acct.evaluations += 1;
         let mut probe = Probe::default();
-        beat(slot, sub, acct.evaluations, true);
+        beat(slot, acct.evaluations, true);
         let r = run_oracle(|p| oracle(&value, p), &mut probe, &mut acct.harness_problems, &value);
-        beat(slot, sub, acct.evaluations, false);
         for l in probe.labels.drain(..) {
             *acct.labels.entry(l).or_default() += 1;
         }
@@ -750,10 +779,12 @@ where
                 }
                 let (fail, v) = best;
                 let json = serde_json::to_value(&v).unwrap_or(Value::Null);
+                beat_idle(slot);
                 return (acct, Some((fail, json)));
             }
         }
     }
+    beat_idle(slot);
     (acct, None)
 }
 
